@@ -772,9 +772,14 @@ def to_hashable(  # noqa: C901, PLR0911, PLR0912
     # Handle pandas Series and DataFrames
     if "pandas" in sys.modules:
         if isinstance(obj, sys.modules["pandas"].Series):
-            return (m, tp, (obj.name, to_hashable(obj.to_dict(), fallback_to_pickle)))
+            # `to_dict` keeps one row per label and the dict is sorted by label,
+            # so the rows (labels and values, in order) are part of the key too
+            rows = to_hashable([obj.index.tolist(), obj.tolist()], fallback_to_pickle)
+            return (m, tp, (obj.name, to_hashable(obj.to_dict(), fallback_to_pickle), rows))
         if isinstance(obj, sys.modules["pandas"].DataFrame):
-            return (m, tp, to_hashable(obj.to_dict("list"), fallback_to_pickle))
+            # `to_dict("list")` has neither the index nor (once sorted) the column order
+            layout = to_hashable([obj.columns.tolist(), obj.index.tolist()], fallback_to_pickle)
+            return (m, tp, to_hashable(obj.to_dict("list"), fallback_to_pickle), layout)
 
     if fallback_to_pickle:
         try:
